@@ -725,6 +725,58 @@ class Replayer:
         if not fails:
             for name, obs in t.get("obs", {}).items():
                 fails += self.check_obs(live.get(name), obs, t["post"][name])
+        if not fails and cls == "ok" and isinstance(val, dict):
+            fails += self.check_independent(live, act, val)
+        return fails
+
+    # actions of Nurbs.tla whose result is a NEW value of the heap-less return (the spec leaves every heap object as is)
+    FRESH_RESULT = {"KvOr", "KvAnd", "KvSplit", "KvCopy", "CvSplit", "CvJoin", "CvArith", "CvScalar", "CvFraction",
+                    "CvDerivate", "CvCopy"}
+
+    def _returned(self, x, out):
+        if isinstance(x, (self.Curve, self.KnotVector)):
+            out.append(x)
+        elif isinstance(x, dict):
+            for y in x.values():
+                self._returned(y, out)
+        elif isinstance(x, (list, tuple)):
+            for y in x:
+                self._returned(y, out)
+
+    def check_independent(self, live, act, val):
+        """In the spec a returned curve / knot vector is a VALUE: whatever is later done to it is no action on the heap.
+        Here every returned object is mutated and every heap object must stay exactly what it was."""
+        objs = []
+        self._returned(val, objs)
+        if not objs:
+            return []
+        fails = []
+        heapobjs = {n: o for n, o in live.items() if isinstance(o, (self.Curve, self.KnotVector))}
+        try:
+            snaps = {n: self.project(o) for n, o in heapobjs.items()}
+        except TypeError:
+            return []
+        for r in objs:
+            if any(r is o for o in heapobjs.values()):
+                if act["name"] in self.FRESH_RESULT:
+                    fails.append(f"{act['name']} returned one of its operands itself instead of a new object: "
+                                 "changing the result changes the operand")
+                continue
+            for mutate in ((lambda: r.degree_increase(1)) if isinstance(r, self.Curve) else (lambda: r.shift(1)),
+                           (lambda: setattr(r, "ctrlpoints", [2 * p + 1 for p in r.ctrlpoints])) if isinstance(r, self.Curve)
+                           else (lambda: r.scale(2)),
+                           (lambda: r.knotvector.shift(1)) if isinstance(r, self.Curve) else (lambda: r.normalize())):
+                try:
+                    mutate()
+                except Exception:
+                    pass  # whether the result can be mutated this way is not the point
+        for n, o in heapobjs.items():
+            try:
+                if self.project(o) != snaps[n]:
+                    fails.append(f"changing the object returned by {act['name']} changed heap object {n} "
+                                 f"(from {snaps[n]} to {self.project(o)}): results share state with operands")
+            except TypeError:
+                pass
         return fails
 
     @staticmethod
